@@ -324,6 +324,8 @@ class Expr:
                 e = e.a[0].a[0]  # `match r { Ok(x) => x, Err(e) => return Err(e) }` -> r (the Ok payload of r)
             elif e.k == "phi" and len({c.show() for c in e.a}) == 1:
                 e = e.a[0]
+            elif e.k == "call" and len(e.a) == 2 and e.x["path"].endswith(("::index", "::index_mut")) and e.a[1].strip().k == "agg" and (e.a[1].strip().x.get("adt") or "").endswith("ops::RangeFull"):
+                e = e.a[0]      # v[..] is the whole of v
             elif e.k == "field" and isinstance(e.x.get("idx"), int) and e.a[0].strip().k == "agg" and e.a[0].strip().x.get("ak") == "tuple" and e.x["idx"] < len(e.a[0].strip().a):
                 e = e.a[0].strip().a[e.x["idx"]]      # (a, b).1 -> b
             elif e.k == "call" and e.a and e.x["path"].rsplit("::", 1)[-1] in ("unwrap", "expect") and e.x["path"].startswith(("std::result::Result", "std::option::Option")):
